@@ -516,6 +516,12 @@ fn one_case(ctx: &mut Ctx, tx: &Transaction, w: &txgen::World, c: &Costs, factor
                     if !le { ctx.oracle_fail("refund-increases-with-used-gas", &req, &format!("used_gas {u}: {r:?} after {p:?}")); }
                 }
                 prev = Some(r);
+                // the class where the exact formula and any "split" formula (ceil of the parts) differ:
+                // used_gas > 0, factor > 1, min_gas*price and used_gas*price both leave a remainder
+                if *u > 0 && factor > 1 && (*mn as u128 * price as u128) % factor as u128 != 0 && (*u as u128 * price as u128) % factor as u128 != 0 {
+                    ctx.count("refund.checked-exact.nonzero-remainders");
+                    if r.is_some() { ctx.count("refund.checked-exact.nonzero-remainders.some"); }
+                }
                 ctx.count(if r.is_some() { "refund.some" } else { "refund.none" });
                 if (*mn as u128 + *u as u128) > u64::MAX as u128 { ctx.count("refund.total-gas-saturated"); }
             }
@@ -599,6 +605,15 @@ pub fn run(ctx: &mut Ctx) {
             for price in [0u64, 1, 1 << 32, u64::MAX - 1, u64::MAX] {
                 one_case(ctx, &tx2, &w, &default_costs(), factor, 4, price, &mut vec![0, 1000, 400_000, u64::MAX]);
             }
+        }
+        // refund against the exact formula with non-zero remainders of min_gas*price and used_gas*price (factor 10, price 1,
+        // used_gas 1 and neighbours; min_gas of tx2 under the default costs is not a multiple of 10, 7 or 3)
+        let tx3: Transaction = Transaction::script(1_000_000, vec![1, 2, 3], vec![], fuel_tx::policies::Policies::new().with_max_fee(u64::MAX).with_tip(7).with_witness_limit(10_000),
+            vec![Input::coin_signed(Default::default(), Default::default(), 100, Default::default(), Default::default(), 0)], vec![], vec![vec![0u8; 64].into()]).into();
+        for (factor, price) in [(10u64, 1u64), (10, 3), (7, 1), (3, 2), (1_000_000_000, 999_999_937), (u64::MAX, u64::MAX - 1)] {
+            one_case(ctx, &tx3, &w, &default_costs(), factor, 4, price, &mut vec![1, 2, 9, 11]);
+            one_case(ctx, &tx2, &w, &default_costs(), factor, 3, price, &mut vec![1, 7, 13, 10_001]);
+            one_case(ctx, &tx3, &w, &free, factor, 1, price, &mut vec![1, 3, 5, 8]);
         }
         // outside the guards: factor 0 and units_per_gas 0 (expected panics, compared with the model's panic sites)
         one_case(ctx, &tx2, &w, &default_costs(), 0, 4, 5, &mut vec![0, 1, 2, 3]);
